@@ -14,22 +14,26 @@ def GS (p : PP) : SRes → Prop
   | .abort r => GR p r
 
 /-- doPrint/doPrintf: the invariant holds afterwards, the mode is an escaping one, the override is untouched. -/
-def D (p : PP) (r : Res) : Prop := ∀ q, r = .ok q → Inv q.buf ∧ q.buf.mode ≠ .raw ∧ q.override = p.override
+def D (p : PP) (r : Res) : Prop :=
+  (∀ q, r = .ok q → Inv q.buf ∧ q.buf.mode ≠ .raw ∧ q.override = p.override) ∧
+  (∀ b pl, r = .panic b pl → Inv b ∧ ValOk pl)
 
 theorem GR_congr {p p1 : PP} {r : Res} (hb : p1.buf = p.buf) (ho : p1.override = p.override) (h : GR p1 r) : GR p r := by
-  intro q hq
-  have g := h q hq
+  refine ⟨fun q hq => ?_, h.2⟩
+  have g := h.1 q hq
   exact ⟨g.1, by rw [g.2.1, hb], by rw [g.2.2, ho]⟩
 
 theorem Pre_congr {p p1 : PP} (hb : p1.buf = p.buf) (hp : Pre p) : Pre p1 := by
   unfold Pre; rw [hb]; exact hp
 
-theorem GR_ok {p q : PP} (h : G p q) : GR p (.ok q) := by
-  intro q' hq; cases hq; exact h
+theorem GR_fuel (p : PP) : GR p .fuel := GR_none p (fun _ h => by cases h) (fun _ _ h => by cases h)
+theorem GR_unsupported (p : PP) : GR p .unsupported := GR_none p (fun _ h => by cases h) (fun _ _ h => by cases h)
+theorem GR_panic (p : PP) {b : Buffer} {pl : Val} (hi : Inv b) (hv : ValOk pl) : GR p (.panic b pl) :=
+  ⟨fun q hq => (by cases hq), fun b' pl' hq => (by cases hq; exact ⟨hi, hv⟩)⟩
 
-theorem GR_fuel (p : PP) : GR p .fuel := by intro q hq; cases hq
-theorem GR_unsupported (p : PP) : GR p .unsupported := by intro q hq; cases hq
-theorem GR_panic (p : PP) : GR p .panic := by intro q hq; cases hq
+/-- Start from a state reached by ambient writes. -/
+theorem GR_from {p p1 : PP} {r : Res} (g : G p p1) (h : GR p1 r) : GR p r :=
+  ⟨fun q hq => G.trans g (h.1 q hq), h.2⟩
 
 /-- What is known about every function of the printer at fuel `n`. -/
 structure Spec (env : Env) (n : Nat) : Prop where
@@ -61,8 +65,7 @@ theorem spec_zero (env : Env) : Spec env 0 := by
     doPrintf, fmtLoop, directiveTail, finishPrintf, extraLoop]
   all_goals first
     | exact GR_fuel _
-    | (intro q hq; cases hq)
-    | exact GR_fuel _
+    | exact ⟨fun q hq => (by cases hq), fun b pl hq => (by cases hq)⟩
 
 
 theorem valOk_safeW {v : Val} (h : ValOk (.safeW v)) : ValOk v := by simpa [ValOk] using h
@@ -110,10 +113,9 @@ theorem step_badVerb {env : Env} {n : Nat} (S : Spec env n) :
     · have g3 : G (((p1.w percentBang).wr verb).wb 0x28) (((((p1.w percentBang).wr verb).wb 0x28).w (typeName v)).wb 0x3D) :=
         G.trans (G_w hp2 _) (G_wb (G.pre hp2 (G_w hp2 _)) 0x3D)
       have hp3 := G.pre hp2 g3
-      intro q hq
-      split at hq
-      · exact G.trans g2 (G.trans g3 (S.printValue _ _ _ _ _ hp3 hv q hq))
-      · exact G.trans g2 (G.trans g3 (S.printArg _ _ _ hp3 hv q hq))
+      split
+      · exact GR_from (G.trans g2 g3) (S.printValue _ _ _ _ _ hp3 hv)
+      · exact GR_from (G.trans g2 g3) (S.printArg _ _ _ hp3 hv)
   · intro q gq
     exact GR_ok (G.trans (G_wb (G.pre hp1 gq) _) (G_same (G.pre (G.pre hp1 gq) (G_wb (G.pre hp1 gq) _)) rfl rfl))
 
@@ -217,7 +219,7 @@ theorem step_catchPanic {env : Env} {n : Nat} (S : Spec env n) :
     split
     · exact GR_ok (G.trans gq (G_w hq _))
     · split
-      · exact GR_panic _
+      · exact GR_panic _ hq.1 hpl
       · -- the panic report
         simp only
         let q1 : PP := { q with f := q.f.clear }
@@ -229,10 +231,9 @@ theorem step_catchPanic {env : Env} {n : Nat} (S : Spec env n) :
         have w5 := G.trans w4 (G_w (G.pre hq1 w4) " method: ".toUTF8.toList)
         have hq5 := G.pre hq1 w5
         apply GR_bind (p := p)
-        · intro r hr
-          have := S.printArg _ payload 118 (Pre_congr (p := ((((q1.w percentBang).wr verb).w "(PANIC=".toUTF8.toList).w m).w " method: ".toUTF8.toList)
-            (p1 := { ((((q1.w percentBang).wr verb).w "(PANIC=".toUTF8.toList).w m).w " method: ".toUTF8.toList with panicking := true }) rfl hq5) hpl r hr
-          exact G.trans gq (G.trans (G.trans (G_same hq rfl rfl) w5) this)
+        · have := S.printArg _ payload 118 (Pre_congr (p := ((((q1.w percentBang).wr verb).w "(PANIC=".toUTF8.toList).w m).w " method: ".toUTF8.toList)
+            (p1 := { ((((q1.w percentBang).wr verb).w "(PANIC=".toUTF8.toList).w m).w " method: ".toUTF8.toList with panicking := true }) rfl hq5) hpl
+          exact ⟨fun r hr => G.trans gq (G.trans (G.trans (G_same hq rfl rfl) w5) (this.1 r hr)), this.2⟩
         · intro r gr
           have hr := G.pre hp gr
           exact GR_ok (G.trans (G_wb (Pre_congr rfl hr) 0x29) (G_same (G.pre (Pre_congr rfl hr) (G_wb (Pre_congr rfl hr) 0x29)) rfl rfl))
@@ -242,14 +243,14 @@ theorem GS_trans {p q : PP} {out : SRes} (h1 : G p q) (h2 : GS q out) : GS p out
   cases out with
   | ok r => exact G.trans h1 h2
   | raised r pl => exact ⟨G.trans h1 h2.1, h2.2⟩
-  | abort r => intro x hx; exact G.trans h1 (h2 x hx)
+  | abort r => exact GR_from h1 h2
 
 /-- One bracketed write of the adapter. -/
 theorem G_bracket_step (start : PP → PP × PP.Restorer) (p : PP) (f : PP → PP) (hp : Pre p)
     (hstart : Pre (start p).1 ∧ (start p).2 = ⟨p.buf.mode, p.override⟩)
     (hf : ∀ q, Pre q → G q (f q)) : G p ((f (start p).1).restore (start p).2) := by
   have := GR_bracket start p (fun q => .ok (f q)) hp hstart (GR_ok (hf _ hstart.1))
-  exact this _ (by simp [bracket, Res.bind])
+  exact this.1 _ (by simp [bracket])
 
 theorem step_runScript {env : Env} {n : Nat} (S : Spec env n) :
     ∀ p sc, Pre p → ScriptOk sc → GS p (runScript env (n + 1) p sc) := by
@@ -288,13 +289,15 @@ theorem step_runScript {env : Env} {n : Nat} (S : Spec env n) :
     dsimp only
     split
     · rename_i np' heq
-      have ⟨i1, _, i3⟩ := hd np' heq
+      have ⟨i1, _, i3⟩ := hd.1 np' heq
       have g : G p { p with buf := np'.buf.setMode p.buf.mode } := ⟨inv_setMode _ _ i1, setMode_mode _ _, rfl⟩
       exact GS_trans g (S.runScript _ _ (G.pre hp g) hk)
-    · exact GR_unsupported _
-    · rename_i r hne _
-      intro q hq
-      exact absurd hq (by intro h; exact hne q h)
+    · -- a panic leaves the nested printer: the buffer is handed back, the method has panicked
+      rename_i b pl heq
+      have ⟨i1, hpl⟩ := hd.2 b pl heq
+      exact ⟨⟨inv_setMode _ _ i1, setMode_mode _ _, rfl⟩, hpl⟩
+    · rename_i r hne hnp2
+      exact GR_none _ (fun q h => hne q h) (fun b pl h => hnp2 b pl h)
   · -- printf
     rename_i f args k
     have hargs : ListOk args.toList := listOk_of_valsOk _ (by simp only [ScriptOk] at hsc; exact hsc.1)
@@ -304,13 +307,15 @@ theorem step_runScript {env : Env} {n : Nat} (S : Spec env n) :
     dsimp only
     split
     · rename_i np' heq
-      have ⟨i1, _, i3⟩ := hd np' heq
+      have ⟨i1, _, i3⟩ := hd.1 np' heq
       have g : G p { p with buf := np'.buf.setMode p.buf.mode } := ⟨inv_setMode _ _ i1, setMode_mode _ _, rfl⟩
       exact GS_trans g (S.runScript _ _ (G.pre hp g) hk)
-    · exact GR_unsupported _
-    · rename_i r hne _
-      intro q hq
-      exact absurd hq (by intro h; exact hne q h)
+    · -- a panic leaves the nested printer: the buffer is handed back, the method has panicked
+      rename_i b pl heq
+      have ⟨i1, hpl⟩ := hd.2 b pl heq
+      exact ⟨⟨inv_setMode _ _ i1, setMode_mode _ _, rfl⟩, hpl⟩
+    · rename_i r hne hnp2
+      exact GR_none _ (fun q h => hne q h) (fun b pl h => hnp2 b pl h)
 
 
 theorem G_ite {p : PP} {c : Prop} [Decidable c] {a b : PP} (ha : G p a) (hb : G p b) : G p (if c then a else b) := by
@@ -323,9 +328,6 @@ theorem GR_ite {p : PP} {c : Prop} [Decidable c] {a b : Res} (ha : GR p a) (hb :
 theorem GR_then_wb {p : PP} {r : Res} (hp : Pre p) (h : GR p r) (c : Byte) : GR p (r.bind fun q => .ok (q.wb c)) :=
   GR_bind h (fun q gq => GR_ok (G_wb (G.pre hp gq) c))
 
-/-- Start from a state reached by ambient writes. -/
-theorem GR_from {p p1 : PP} {r : Res} (g : G p p1) (h : GR p1 r) : GR p r := by
-  intro q hq; exact G.trans g (h q hq)
 
 theorem step_printValue {env : Env} {n : Nat} (S : Spec env n) :
     ∀ p v verb d ro, Pre p → ValOk v → GR p (printValue env (n + 1) p v verb d ro) := by
@@ -462,7 +464,7 @@ theorem step_slotMethods {env : Env} {n : Nat} (S : Spec env n) :
         dsimp only
         split
         · rename_i q heq; rw [heq] at this; exact GR_ok this
-        · exact GR_panic _
+        · rename_i q pl heq; rw [heq] at this; exact GR_panic _ this.1.1 this.2
         · rename_i r heq; rw [heq] at this; exact this
       · exact GR_ok (G.refl hp)
     · exact GR_unsupported _
@@ -595,8 +597,8 @@ theorem precStage_G (p : PP) (args : List Val) (argNum : Nat) (r : List Byte) (a
   · exact G.refl hp
 
 theorem D_of_GR {p p1 : PP} {r : Res} (h1 : Pre p1) (ho : p1.override = p.override) (h : GR p1 r) : D p r := by
-  intro q hq
-  have g := h q hq
+  refine ⟨fun q hq => ?_, h.2⟩
+  have g := h.1 q hq
   exact ⟨g.1, by rw [g.2.1]; exact h1.2, by rw [g.2.2, ho]⟩
 
 theorem Pre_setSafe {p : PP} (hp : Pre p) :
